@@ -93,9 +93,149 @@ def brute(feats, seqid, start, end, within, strand=None, ftypes=None):
     return sorted(out)
 
 
+def do_query(db, feats, q):
+    """run one query of the case on the real database.  returns (ids returned, sorted; the brute-force answer over
+    `feats` - None for the one-sided form, which has its own oracle; the model command of the same query)"""
+    from gffutils.feature import Feature
+    kind, seqid, a, b = q["query"], q["seqid"], q["start"], q["end"]
+    within, strand, ft = q["completely_within"], q["strand"], q["featuretype"]
+    fts = None if ft is None else ([ft] if isinstance(ft, str) else list(ft))
+    root = feats[0]["id"]
+    kids = [f for f in feats if f["parent"] == root]
+    if kind.startswith("region"):
+        kw = dict(completely_within=within, featuretype=ft)
+        want_strand = strand
+        sq = seqid
+        if kind == "region_tuple":
+            got = db.region((seqid, a, b), strand=strand, **kw)
+        elif kind == "region_kw":
+            got = db.region(seqid=seqid, start=a, end=b, strand=strand, **kw)
+        elif kind == "region_str":
+            got = db.region("%s:%d-%d" % (seqid, a, b), strand=strand, **kw)
+        elif kind == "region_feature":
+            fstrand = strand or "+"
+            got = db.region(Feature(seqid=seqid, start=a, end=b, strand=fstrand), **kw)
+            want_strand = fstrand          # the query feature's strand restricts (documented behaviour of the code)
+        else:
+            got = db.region(start=a, end=b, strand=strand, **kw)
+            sq = None
+        got = sorted(f.id for f in got)
+        want = brute(feats, sq, a, b, within, want_strand, fts)
+        cmd = "region %s %d %d %s %s %s" % ("~" if sq is None else enc(sq), a, b, "~" if want_strand is None else enc(want_strand),
+                                            "~" if fts is None else enc_list(fts), "1" if within else "0")
+        return got, want, cmd
+    if kind == "one_sided":
+        if q["one_sided"] == "start":
+            got = sorted(f.id for f in db.region(seqid=seqid, start=a, completely_within=within))
+            cmd = "region %s %d ~ ~ ~ %s" % (enc(seqid), a, "1" if within else "0")
+        else:
+            got = sorted(f.id for f in db.region(seqid=seqid, end=b, completely_within=within))
+            cmd = "region %s ~ %d ~ ~ %s" % (enc(seqid), b, "1" if within else "0")
+        return got, None, cmd
+    lim = (seqid, a, b) if kind != "limit_all_str" else "%s:%d-%d" % (seqid, a, b)
+    if kind in ("limit_all", "limit_all_str"):
+        got = db.all_features(limit=lim, completely_within=within, strand=strand, featuretype=ft)
+        want = brute(feats, seqid, a, b, within, strand, fts)
+        cmd = "q " + dbside.cmd_query(ft=fts or [], strand=strand, limit=(seqid, a, b), within=within)
+    elif kind == "limit_type":
+        t = ft if ft is not None else "exon"
+        tl = [t] if isinstance(t, str) else list(t)
+        got = db.features_of_type(t, limit=lim, completely_within=within, strand=strand)
+        want = brute(feats, seqid, a, b, within, strand, tl)
+        cmd = "q " + dbside.cmd_query(ft=tl, strand=strand, limit=(seqid, a, b), within=within)
+    elif kind == "limit_children":
+        got = db.children(root, limit=lim, completely_within=within, featuretype=ft)
+        want = brute(kids, seqid, a, b, within, None, fts)
+        cmd = "rel children %s ~ %s" % (enc(root), dbside.cmd_query(ft=fts or [], limit=(seqid, a, b), within=within))
+    else:
+        child = kids[0]["id"] if kids else feats[-1]["id"]
+        got = db.parents(child, limit=lim, completely_within=within)
+        want = brute([feats[0]] if kids else [], seqid, a, b, within, None, None)
+        cmd = "rel parents %s ~ %s" % (enc(child), dbside.cmd_query(limit=(seqid, a, b), within=within))
+    got = sorted(f.id for f in got)
+    return got, want, cmd
+
+
+def check_one_sided(case, feats, q, got, res):
+    seqid, a, b, within, which = q["seqid"], q["start"], q["end"], q["completely_within"], q["one_sided"]
+    onseq = [f for f in feats if f["seqid"] == seqid]
+    S = lambda f: iv(f["start"])
+    E = lambda f: iv(f["end"])
+    if which == "start":
+        # half-line [a, oo): a feature is outside when it ends before a
+        outside = [f["id"] for f in onseq if E(f) is not None and E(f) < a]
+        beyond = [f["id"] for f in onseq if S(f) is not None and S(f) > a] if within else \
+            [f["id"] for f in onseq if E(f) is not None and E(f) > a]
+    else:
+        outside = [f["id"] for f in onseq if S(f) is not None and S(f) > b]
+        beyond = [f["id"] for f in onseq if E(f) is not None and E(f) < b] if within else \
+            [f["id"] for f in onseq if S(f) is not None and S(f) < b]
+    bad = [x for x in got if x in outside or x not in [f["id"] for f in onseq]]
+    miss = [x for x in beyond if x not in got]
+    if bad or miss or len(got) != len(set(got)):
+        common.fail(res, case, "one_sided_region_wrong", "one-sided region: returned a feature outside the half-line, or missed "
+                    "one strictly beyond the bound", observed=got, outside=bad, missing=miss)
+
+
+def check_query(case, db, feats, res):
+    """one query against the brute-force filter.  returns (status, got, want, model command); status 'raised' |
+    'one_sided' | 'judged'"""
+    q = case["query"]
+    try:
+        got, want, cmd = do_query(db, feats, q)
+    except Exception as ex:
+        common.fail(res, case, "query_raised", "%s raised %r" % (q["query"], ex), error=dbside.err_name(ex), observed=repr(ex))
+        return "raised", None, None, None
+    if want is None:
+        check_one_sided(case, feats, q, got, res)
+        return "one_sided", got, want, cmd
+    if got != want:
+        common.fail(res, case, "query_result_wrong", "%s does not return exactly the %s features" %
+                    (q["query"], "contained" if q["completely_within"] else "overlapping"), observed=got, expected=want)
+    return "judged", got, want, cmd
+
+
+def move_feature(db, f0, ns, ne):
+    """fetch, change coordinates, update with replace: the stored bin has to follow the new coordinates"""
+    import warnings
+    obj = db[f0["id"]]
+    obj.start, obj.end = ns, ne
+    with warnings.catch_warnings():
+        warnings.simplefilter("ignore")
+        db.update([obj], merge_strategy="replace", make_backup=False)
+    f0["start"], f0["end"] = str(ns), str(ne)
+
+
+def mk_case(scenario, lines, feats, moves, **kw):
+    """a self-contained case: the lines as imported, the generator's record of every line, the coordinate changes
+    applied afterwards ([id, new start, new end], in order), the query"""
+    return dict({"scenario": scenario, "input": lines, "records": feats, "parallel": ["records"], "moves": moves,
+                 "config": dbside.Cfg().to_json()}, **kw)
+
+
+def judge(ctx, case):
+    res = common.Result("C06")
+    lines = case["input"]
+    feats = [dict(f) for f in case["records"]]
+    if len(lines) != len(feats):
+        return res
+    path = dbside.write_lines(os.path.join(ctx.scratch, "c06.gff3"), lines)
+    db, rep = dbside.py_create(path, dbside.Cfg.from_json(case["config"]))
+    if db is None:
+        common.fail(res, case, "create_db_raised", "create_db raised on a plain GFF3 feature set: " + rep, error=rep, observed=rep)
+        return res
+    if case["scenario"] != "query":
+        return res
+    byid = {f["id"]: f for f in feats}
+    for fid, ns, ne in case.get("moves", []):
+        if fid in byid and iv(byid[fid]["start"]) is not None and iv(byid[fid]["end"]) is not None:
+            move_feature(db, byid[fid], ns, ne)
+    check_query(case, db, feats, res)
+    return res
+
+
 def run(ctx):
     import gffutils
-    from gffutils.feature import Feature
     res = common.Result("C06")
     r = ctx.rng("c06")
     res.rule = ("feature sets of 5-40 features (start <= end or '.') with ends on / one off / two off bin boundaries of "
@@ -109,31 +249,26 @@ def run(ctx):
     for si in range(nsets):
         feats = rand_feature_set(r, r.randrange(5, 41))
         lines = lines_of(feats)
+        orig_lines, orig_feats, moves = lines, [dict(f) for f in feats], []
         path = dbside.write_lines(os.path.join(ctx.scratch, "c06.gff3"), lines)
         db, rep = dbside.py_create(path, dbside.Cfg())
         if db is None:
-            res.oracle_failures.append(("create_db raised on a plain GFF3 feature set: " + rep, {"lines": lines}))
+            common.fail(res, mk_case("import", orig_lines, orig_feats, []), "create_db_raised",
+                        "create_db raised on a plain GFF3 feature set: " + rep, error=rep, observed=rep)
             continue
         # in some sets a few features are moved afterwards (fetch, change coordinates, update with replace):
         # the stored bin has to follow the new coordinates
         if si % 3 == 0:
-            import warnings
             for f0 in r.sample(feats, min(3, len(feats))):
                 if iv(f0["start"]) is None or iv(f0["end"]) is None:
                     continue
                 ns = boundary_coord(r)
                 ne = ns + r.choice([0, 5, SIZES[0] - 1, r.randrange(0, 2 * SIZES[0])])
-                obj = db[f0["id"]]
-                obj.start, obj.end = ns, ne
-                with warnings.catch_warnings():
-                    warnings.simplefilter("ignore")
-                    db.update([obj], merge_strategy="replace", make_backup=False)
-                f0["start"], f0["end"] = str(ns), str(ne)
+                move_feature(db, f0, ns, ne)
+                moves.append([f0["id"], ns, ne])
                 res.count("moved_features")
             lines = lines_of(feats)
         cmds.append(dbside.cmd_load(db)); exp.append("ok"); tags.append(("load", "dump of the real database"))
-        root = feats[0]["id"]
-        kids = [f for f in feats if f["parent"] == root]
         for qi in range(nq):
             a = boundary_coord(r)
             b = a + r.choice([0, 1, 5, SIZES[0] - 1, SIZES[0], 2 * SIZES[0], SIZES[1], SIZES[2], r.randrange(0, 2 * SIZES[0])])
@@ -154,7 +289,6 @@ def run(ctx):
             within = r.random() < 0.5
             strand = r.choice([None, None, "+", "-"])
             ft = r.choice([None, None, "exon", ["exon", "CDS"], ["gene"]])
-            fts = None if ft is None else ([ft] if isinstance(ft, str) else list(ft))
             kind = r.choice(["region_tuple", "region_kw", "region_str", "region_feature", "region_noseqid", "one_sided",
                              "limit_all", "limit_all_str", "limit_type", "limit_children", "limit_parents"])
             inp = {"lines": lines, "query": kind, "seqid": seqid, "start": a, "end": b, "completely_within": within,
@@ -162,92 +296,17 @@ def run(ctx):
             res.evaluations += 1
             res.count(kind)
             res.count("beyond_2^29" if b >= M else "below_2^29")
-            try:
-                if kind.startswith("region"):
-                    kw = dict(completely_within=within, featuretype=ft)
-                    want_strand = strand
-                    sq = seqid
-                    if kind == "region_tuple":
-                        got = db.region((seqid, a, b), strand=strand, **kw)
-                    elif kind == "region_kw":
-                        got = db.region(seqid=seqid, start=a, end=b, strand=strand, **kw)
-                    elif kind == "region_str":
-                        got = db.region("%s:%d-%d" % (seqid, a, b), strand=strand, **kw)
-                    elif kind == "region_feature":
-                        fstrand = strand or "+"
-                        got = db.region(Feature(seqid=seqid, start=a, end=b, strand=fstrand), **kw)
-                        want_strand = fstrand          # the query feature's strand restricts (documented behaviour of the code)
-                    else:
-                        got = db.region(start=a, end=b, strand=strand, **kw)
-                        sq = None
-                    got = sorted(f.id for f in got)
-                    want = brute(feats, sq, a, b, within, want_strand, fts)
-                    cmds.append("region %s %d %d %s %s %s" % ("~" if sq is None else enc(sq), a, b,
-                                                              "~" if want_strand is None else enc(want_strand),
-                                                              "~" if fts is None else enc_list(fts), "1" if within else "0"))
-                    exp.append("SET " + enc_list(got)); tags.append((kind, repr(inp)))
-                elif kind == "one_sided":
-                    which = r.choice(["start", "end"])
-                    inp["one_sided"] = which
-                    if which == "start":
-                        got = sorted(f.id for f in db.region(seqid=seqid, start=a, completely_within=within))
-                        cmds.append("region %s %d ~ ~ ~ %s" % (enc(seqid), a, "1" if within else "0"))
-                    else:
-                        got = sorted(f.id for f in db.region(seqid=seqid, end=b, completely_within=within))
-                        cmds.append("region %s ~ %d ~ ~ %s" % (enc(seqid), b, "1" if within else "0"))
-                    exp.append("SET " + enc_list(got)); tags.append((kind, repr(inp)))
-                    onseq = [f for f in feats if f["seqid"] == seqid]
-                    S = lambda f: iv(f["start"])
-                    E = lambda f: iv(f["end"])
-                    if which == "start":
-                        # half-line [a, oo): a feature is outside when it ends before a
-                        outside = [f["id"] for f in onseq if E(f) is not None and E(f) < a]
-                        beyond = [f["id"] for f in onseq if S(f) is not None and S(f) > a] if within else \
-                            [f["id"] for f in onseq if E(f) is not None and E(f) > a]
-                    else:
-                        outside = [f["id"] for f in onseq if S(f) is not None and S(f) > b]
-                        beyond = [f["id"] for f in onseq if E(f) is not None and E(f) < b] if within else \
-                            [f["id"] for f in onseq if S(f) is not None and S(f) < b]
-                    bad = [x for x in got if x in outside or x not in [f["id"] for f in onseq]]
-                    miss = [x for x in beyond if x not in got]
-                    if bad or miss or len(got) != len(set(got)):
-                        res.oracle_failures.append(("one-sided region: returned a feature outside the half-line, or missed "
-                                                    "one strictly beyond the bound", dict(inp, returned=got, outside=bad,
-                                                                                         missing=miss)))
-                    continue
-                else:
-                    lim = (seqid, a, b) if kind != "limit_all_str" else "%s:%d-%d" % (seqid, a, b)
-                    if kind in ("limit_all", "limit_all_str"):
-                        got = db.all_features(limit=lim, completely_within=within, strand=strand, featuretype=ft)
-                        want = brute(feats, seqid, a, b, within, strand, fts)
-                        cmds.append("q " + dbside.cmd_query(ft=fts or [], strand=strand, limit=(seqid, a, b), within=within))
-                    elif kind == "limit_type":
-                        t = ft if ft is not None else "exon"
-                        tl = [t] if isinstance(t, str) else list(t)
-                        got = db.features_of_type(t, limit=lim, completely_within=within, strand=strand)
-                        want = brute(feats, seqid, a, b, within, strand, tl)
-                        cmds.append("q " + dbside.cmd_query(ft=tl, strand=strand, limit=(seqid, a, b), within=within))
-                    elif kind == "limit_children":
-                        got = db.children(root, limit=lim, completely_within=within, featuretype=ft)
-                        want = brute(kids, seqid, a, b, within, None, fts)
-                        cmds.append("rel children %s ~ %s" % (enc(root), dbside.cmd_query(ft=fts or [], limit=(seqid, a, b),
-                                                                                     within=within)))
-                    else:
-                        child = kids[0]["id"] if kids else feats[-1]["id"]
-                        got = db.parents(child, limit=lim, completely_within=within)
-                        want = brute([feats[0]] if kids else [], seqid, a, b, within, None, None)
-                        cmds.append("rel parents %s ~ %s" % (enc(child), dbside.cmd_query(limit=(seqid, a, b), within=within)))
-                    got = sorted(f.id for f in got)
-                    exp.append("SET " + enc_list(got)); tags.append((kind, repr(inp)))
-            except Exception as ex:
-                res.oracle_failures.append(("%s raised %r" % (kind, ex), inp))
+            if kind == "one_sided":
+                inp["one_sided"] = r.choice(["start", "end"])
+            case = mk_case("query", orig_lines, orig_feats, moves, query={k: v for k, v in inp.items() if k != "lines"})
+            status, got, want, cmd = check_query(case, db, feats, res)
+            if status == "raised":
+                continue
+            cmds.append(cmd); exp.append("SET " + enc_list(got)); tags.append((kind, repr(inp)))
+            if status == "one_sided":
                 continue
             if want:
                 res.nontriv((si, kind, seqid, a, b, within, strand, str(ft)))
-            if got != want:
-                res.oracle_failures.append(("%s does not return exactly the %s features" %
-                                            (kind, "contained" if within else "overlapping"),
-                                            dict(inp, returned=got, expected=want)))
             if len(res.samples) < 3 and want:
                 res.sample({k: v for k, v in inp.items() if k != "lines"} | {"answer": want})
     out = ctx.model(cmds)
@@ -261,10 +320,9 @@ def run(ctx):
     res.assumptions = ["stored features have start <= end (or '.'): for a feature with start > end the SQL of region() "
                        "also matches start == end == query point, which the property's wording does not cover",
                        "queries have 1 <= start <= end", "region(Feature) restricts to the query feature's strand"]
+    common.shrink_first_failure(res, lambda case: judge(ctx, case))
     return res
 
 
 def replay(ctx, payload):
-    res = common.Result("C06")
-    print("replay:", payload.get("what"), {k: v for k, v in payload.get("input", {}).items()})
-    return res
+    return common.replay_failure("C06", payload, lambda case: judge(ctx, case))
